@@ -8,6 +8,7 @@ import Homonim.Model.WindowIO
 import Homonim.Model.Orient
 import Homonim.Model.Kernel
 import Homonim.Model.Resample
+import Homonim.Model.Mask
 open Homonim
 
 def ints (ts : List String) : Option (List Int) := ts.mapM String.toInt?
@@ -95,6 +96,9 @@ def handleResample (toks : List String) : String :=
     | _, _, _ => "bad-args"
   | _ => "bad-args"
 
+def parseFVal (t : String) : Option FVal :=
+  if t = "nan" then some .nan else (parseRat t).map .fin
+
 def handle (toks : List String) : String :=
   match toks with
   | "blocks1" :: rest =>
@@ -171,6 +175,31 @@ def handle (toks : List String) : String :=
     | _ => "bad-args"
   | "fit" :: rest => handleFit rest
   | "resample" :: rest => handleResample rest
+  -- erode kh kw h w <h*w bits>  : `_full_coverage_mask` erosion over one block (false border)
+  | "erode" :: kh :: kw :: h :: w :: bits =>
+    match kh.toNat?, kw.toNat?, h.toNat?, w.toNat? with
+    | some kh, some kw, some h, some w =>
+      let arr := bits.toArray
+      if arr.size ≠ h * w then "bad-args" else
+      let m : Nat → Nat → Bool := fun i j => arr.getD (i * w + j) "0" = "1"
+      " ".intercalate ((List.range h).flatMap fun r => (List.range w).map fun c =>
+        if erodeAt kh kw h w m r c then "1" else "0")
+    | _, _, _, _ => "bad-args"
+  | "readpx" :: rest =>
+    match rest with
+    | [im, nd, st, mb] =>
+      let ndv : Option (Option FVal) := if nd = "_" then some none else (parseFVal nd).map some
+      match im.toNat?, ndv, parseFVal st, mb.toNat? with
+      | some im, some ndv, some st, some mb => showORat (readPx (im ≠ 0) ndv st (mb ≠ 0))
+      | _, _, _, _ => "bad-args"
+    | _ => "bad-args"
+  | "overlap" :: rest =>
+    match rest with
+    | [kh, kw] =>
+      match kh.toNat?, kw.toNat? with
+      | some kh, some kw => s!"{overlapForKernel kh} {overlapForKernel kw}"
+      | _, _ => "bad-args"
+    | _ => "bad-args"
   | "kshape" :: rest =>
     match rest with
     | [ms, kh, kw] =>
